@@ -551,6 +551,20 @@ func (fr *frame) symFormat(format string, ops []value) (value, bool) {
 	return mkString(out), true
 }
 
+// opaqueLetters is an opaque text modelled as n unknown lower-case letters
+// (used where the operands are concrete but need reflect internals: the real
+// text is a fixed string the engine cannot compute; letters keep it out of
+// the escaping/markup code paths, which are exercised by their own harnesses).
+func (i *interpreter) opaqueLetters(n int) value {
+	cells := make([]value, n)
+	for k := range cells {
+		v := i.freshVar(types.Uint8, "o")
+		i.assume(vAnd(symBinop("bvuge", v, uint8('a')), symBinop("bvule", v, uint8('z'))))
+		cells[k] = v
+	}
+	return mkString(cells)
+}
+
 func init() {
 	fmtOpaque := func(argIdx int, wrapErr bool) externalFn {
 		return func(fr *frame, args []value) value {
@@ -563,8 +577,8 @@ func init() {
 			if !sym && fr.i.path != nil && needsReflect(args) {
 				// pointers, maps, funcs: the real fmt would go through reflect
 				// internals the engine does not provide; the text is opaque
-				fr.i.stubHits["fmt:opaque-result-for-reflect-only-operands"]++
-				s := fr.i.opaqueString(4)
+				fr.i.stubHits["fmt:opaque-result-for-reflect-only-operands(4 unknown lower-case letters)"]++
+				s := fr.i.opaqueLetters(4)
 				if wrapErr {
 					et := fr.i.prog.ImportedPackage("errors").Type("errorString").Type()
 					var cell value = structure{s}
@@ -586,8 +600,8 @@ func init() {
 				}
 			}
 			if !done {
-				fr.i.stubHits["fmt:opaque-result-for-symbolic-operands"]++
-				s = fr.i.opaqueString(4)
+				fr.i.stubHits["fmt:opaque-result-for-symbolic-operands(4 unknown lower-case letters)"]++
+				s = fr.i.opaqueLetters(4)
 			}
 			if wrapErr {
 				// *errors.errorString{s}
